@@ -17,6 +17,7 @@ NUL/TAB/CR only glued to a preceding backslash that stays in the path).  A rule 
 ':' ; a prerequisite can, anywhere except in first position (`validTarget`, `validDep`).
 -/
 import LLBuild.Lemmas.DepInfo
+import LLBuild.Lemmas.MakeDepsFile
 import LLBuild.Props.C19Deps
 
 namespace LLBuild.MakeDeps
@@ -37,12 +38,45 @@ theorem C11_roundtrip_target (p pre suffix : Bytes) (hp : ∀ c ∈ p, exprByte 
 
 /-- The file-level statement: every file written by `mkDepsFile` from valid rules (single or multiple rules, blank /
 backslash-newline / backslash-CRLF separators, LF or CRLF line ends) parses, without any error action, to exactly the
-rules that were written.  STATED ONLY — the general proof is not done (notes/C11.md §2); what is proved is the
-per-word theorems above for a word at ANY place of ANY file, the concrete multi-rule instances below (kernel-evaluated),
-and on every run the python oracle checks this very statement on the real parser for hundreds of generated files. -/
+rules that were written.  PROVED below as `C11_roundtrip_file` (follow-up; Lemmas/MakeDepsFile.lean); the concrete
+multi-rule instances further down stay as kernel-evaluated non-vacuity witnesses, and on every run the python oracle checks
+this very statement on the real parser for hundreds of generated files. -/
 def C11_roundtrip_file_statement : Prop :=
   ∀ rules : List Rule, (∀ r ∈ rules, r.valid = true) →
     ∃ acts, parse false (mkDepsFile rules) = .ok acts ∧ acts.map Action.event = rules.flatMap Rule.events
+
+/-- "Paths written with the documented escaping ... are recovered byte for byte", whole file: for EVERY list of valid
+rules (any number of rules; targets and prerequisites over the full expressible alphabet — every byte except NUL, TAB, LF,
+CR, no `:` in a target, none in first position of a prerequisite; any of the three separators in front of each
+prerequisite; LF or CRLF line ends chosen per rule), parsing the file `mkDepsFile` writes yields exactly the event
+sequence `start target, dep …, finish` of each rule in order — no error action, nothing dropped, nothing added. -/
+theorem C11_roundtrip_file : C11_roundtrip_file_statement := by
+  intro rules hv
+  unfold parse
+  exact parseRules_file rules (mkDepsFile rules) 0 hv (Nat.zero_le _) (Or.inl (by simp))
+
+/-- the same with `ignoreSubsequentOutputs` (the `makefile-ignoring-subsequent-outputs` deps style): the parser reports
+exactly the FIRST written rule — target, all its prerequisites, end — and nothing of the later rules. -/
+theorem C11_roundtrip_file_ignoring (rules : List Rule) (hv : ∀ r ∈ rules, r.valid = true) :
+    ∃ acts, parse true (mkDepsFile rules) = .ok acts ∧ acts.map Action.event = (rules.take 1).flatMap Rule.events := by
+  cases rules with
+  | nil => exact ⟨[], by decide +kernel, rfl⟩
+  | cons r rs =>
+    obtain ⟨acts, h, hev⟩ := parseRules_file_ign r rs (hv r (by simp))
+    exact ⟨acts, h, by simpa using hev⟩
+
+/-- what the command makes of a written file ("instead of silently dropping dependencies", positive direction): for
+every list of valid rules `processMakefileDiscoveredDependencies` accepts the file (`numErrors == 0`), and the
+discovered-dependency keys are exactly the written prerequisites of all rules, in order, each resolved against the
+working directory. -/
+theorem C11_roundtrip_file_discovered (wd : Bytes) (rules : List Rule) (hv : ∀ r ∈ rules, r.valid = true) :
+    processMakefile false (mkDepsFile rules) = .ok true ∧
+    ∃ acts, parse false (mkDepsFile rules) = .ok acts ∧
+      discovered wd acts = rules.flatMap (fun r => r.deps.map (fun d => resolve wd d.2)) := by
+  obtain ⟨acts, h, hev⟩ := C11_roundtrip_file rules hv
+  refine ⟨?_, acts, h, ?_⟩
+  · simp [processMakefile, h, mapOk, numErrors_eq_events, hev, Rule.events_no_error]
+  · rw [discovered_eq_events, hev, Rule.events_deps]
 
 /-- instances of the file-level statement: two rules; all three separators; CRLF and LF line ends; every special
 character (`a b`, `#c`, `d\`, `$e`, `f:g`, `:`-final) -/
@@ -57,6 +91,13 @@ example : (parse false (mkDepsFile sampleRules)).map (·.map Action.event) = .ok
   decide +kernel
 example : (parse true (mkDepsFile sampleRules)).map (·.map Action.event) = .ok ((sampleRules.take 1).flatMap Rule.events) := by
   decide +kernel
+
+-- non-vacuity of the three file theorems: `sampleRules` satisfies their hypothesis (above), and the conclusions are not
+-- trivially about empty streams
+example : ∃ acts, parse false (mkDepsFile sampleRules) = .ok acts ∧ acts.length = 12 := by
+  obtain ⟨acts, h, hev⟩ := C11_roundtrip_file sampleRules (by decide)
+  exact ⟨acts, h, by have := congrArg List.length hev; simpa [sampleRules, Rule.events] using this⟩
+example : discovered [47, 119] [.ruleStart [97] [97], .dep [98] [98], .ruleEnd] = [[47, 119, 47, 98]] := by decide
 
 /-- LF is inexpressible: whatever the input and wherever lexing starts, no word reported by the parser's word step
 contains a newline.  (So no escaping could make `escape` total on paths with LF.) -/
